@@ -445,9 +445,12 @@ def esc3(ctx: Ctx) -> None:
             for name, st in objs.items():
                 n += 1
                 closers = set()
+                # `x = name.aclose()` ... `x.send(None)` drives the close just like `name.aclose().send(None)`
+                closing_aw = {norm(a_.targets[0]) for a_ in walk_scope(fn) if isinstance(a_, ast.Assign) and len(a_.targets) == 1 and isinstance(a_.targets[0], ast.Name)
+                              and norm(a_.value) == f"{name}.aclose()"}
                 for c in calls_in(fn, scope_only=True):
                     t = norm(c)
-                    if t == f"{name}.close()" or t.startswith(f"{name}.aclose().send("):
+                    if t == f"{name}.close()" or t.startswith(f"{name}.aclose().send(") or any(t.startswith(f"{x_}.send(") for x_ in closing_aw):
                         closers.add(g.node_of(_stmt(mod, c)).idx)
                 src = g.node_of(st)
                 if closers and g.all_paths_pass(src, {g.exit.idx}, closers):
